@@ -52,9 +52,10 @@ Qed.
 
 (** * the executor invariant *)
 (* i0: what the handler spent from the budget before the executor was created *)
-Record binv (i0 : N) (s : estate) : Prop := {
+Record binv (i0 m : N) (s : estate) : Prop := {
   bi_tot : utot (buse (ebudget s)) <= bmax (ebudget s);
-  bi_max : bmax (ebudget s) < two127;
+  bi_m : bmax (ebudget s) = m;
+  bi_max : m < two127;
   bi_cost : ncoll (ecost s) + i0 = utot (buse (ebudget s));
   bi_rpc : uRpc (buse (ebudget s)) = i0 + uRpc (eusage s);
   bi_sto : uStorage (buse (ebudget s)) = uStorage (eusage s);
@@ -64,20 +65,20 @@ Record binv (i0 : N) (s : estate) : Prop := {
   bi_rw : uRegW (buse (ebudget s)) = uRegW (eusage s) }.
 
 (* k more instructions may each add one unit of collateral *)
-Definition inv (x : ctx) (i0 : N) (k : nat) (s : estate) : Prop :=
-  binv i0 s /\ cCollateral (ecost s) + N.of_nat k * coll_unit x < two128.
+Definition inv (x : ctx) (i0 m : N) (k : nat) (s : estate) : Prop :=
+  binv i0 m s /\ cCollateral (ecost s) + N.of_nat k * coll_unit x < two128.
 (* len(roots) is a Go int; k more instructions may each append one root *)
 Definition rinv (k : nat) (s : estate) : Prop := nroots (eroots s) + N.of_nat k < two63.
 
-Lemma inv_weaken : forall x i0 k s, inv x i0 (S k) s -> inv x i0 k s.
-Proof. intros x i0 k s (Hb & Hc). split; [assumption|]. rewrite Nat2N.inj_succ in *. nia. Qed.
+Lemma inv_weaken : forall x i0 m k s, inv x i0 m (S k) s -> inv x i0 m k s.
+Proof. intros x i0 m k s (Hb & Hc). split; [assumption|]. rewrite Nat2N.inj_succ in *. nia. Qed.
 Lemma rinv_weaken : forall k s, rinv (S k) s -> rinv k s.
 Proof. unfold rinv. intros k s H. rewrite Nat2N.inj_succ in H. lia. Qed.
 
-Lemma inv_frame : forall x i0 k s s',
-  ebudget s' = ebudget s -> ecost s' = ecost s -> eusage s' = eusage s -> inv x i0 k s -> inv x i0 k s'.
+Lemma inv_frame : forall x i0 m k s s',
+  ebudget s' = ebudget s -> ecost s' = ecost s -> eusage s' = eusage s -> inv x i0 m k s -> inv x i0 m k s'.
 Proof.
-  intros x i0 k s s' H1 H2 H3 ([? ? ? ? ? ? ? ? ?] & Hc).
+  intros x i0 m k s s' H1 H2 H3 ([? ? ? ? ? ? ? ? ? ?] & Hc).
   split; [constructor|]; rewrite ?H1, ?H2, ?H3; assumption.
 Qed.
 
@@ -87,14 +88,14 @@ Lemma mk_utot : forall mk c, mk_ok mk -> utot (mk c) = ncoll c.
 Proof. intros mk c [-> | [-> | ->]]; unfold utot, ncoll, std_usage, regr_usage, regw_usage; cbn; lia. Qed.
 
 (* payForExecution: either nothing happens and an error is returned, or the invariant moves on *)
-Lemma pay_spec : forall x i0 k s r mk,
-  inv x i0 (S k) s -> cost_fits (coll_unit x) r -> mk_ok mk ->
+Lemma pay_spec : forall x i0 m k s r mk,
+  inv x i0 m (S k) s -> cost_fits (coll_unit x) r -> mk_ok mk ->
   (exists e, pay r mk s = (s, Err e)) \/
-  (exists s', pay r mk s = (s', Ok tt) /\ inv x i0 k s' /\
+  (exists s', pay r mk s = (s', Ok tt) /\ inv x i0 m k s' /\
               eroots s' = eroots s /\ etemps s' = etemps s /\ ewrites s' = ewrites s).
 Proof.
-  intros x i0 k s r mk (Hb & Hc) (c & -> & Hn & Hcu) Hmk.
-  destruct Hb as [Ht Hm Hco Hrpc Hsto Hegr Hing Hrr Hrw].
+  intros x i0 m k s r mk (Hb & Hc) (c & -> & Hn & Hcu) Hmk.
+  destruct Hb as [Ht Hmm Hm Hco Hrpc Hsto Hegr Hing Hrr Hrw]. subst m.
   unfold pay.
   assert (Hu : utot (mk c) = ncoll c) by (apply mk_utot; assumption).
   rewrite spend_spec by (rewrite Hu; unfold two127, two128 in *; lia).
@@ -111,6 +112,7 @@ Proof.
     split.
     + constructor; cbn [ebudget ecost eusage bmax buse].
       * rewrite utot_uplus. lia.
+      * reflexivity.
       * assumption.
       * rewrite utot_uplus, Hu. unfold ncoll, cplus in *. cbn. lia.
       * destruct Hmk as [-> | [-> | ->]]; cbn; lia.
@@ -151,14 +153,14 @@ Lemma safe_guard : forall b e s (Q : unit -> estate -> Prop) (E : estate -> Prop
   (b = true -> E s) -> (b = false -> Q tt s) -> safe (guard b e) s Q E.
 Proof. intros b e s Q E H1 H2. unfold guard. destruct b; [apply H1|apply H2]; reflexivity. Qed.
 
-Lemma safe_pay : forall x i0 k s r mk (Q : unit -> estate -> Prop) (E : estate -> Prop),
-  inv x i0 (S k) s -> cost_fits (coll_unit x) r -> mk_ok mk ->
+Lemma safe_pay : forall x i0 m k s r mk (Q : unit -> estate -> Prop) (E : estate -> Prop),
+  inv x i0 m (S k) s -> cost_fits (coll_unit x) r -> mk_ok mk ->
   E s ->
-  (forall s', inv x i0 k s' -> eroots s' = eroots s -> etemps s' = etemps s -> ewrites s' = ewrites s -> Q tt s') ->
+  (forall s', inv x i0 m k s' -> eroots s' = eroots s -> etemps s' = etemps s -> ewrites s' = ewrites s -> Q tt s') ->
   safe (pay r mk) s Q E.
 Proof.
-  intros x i0 k s r mk Q E Hi Hc Hm HE HQ. unfold safe.
-  destruct (pay_spec x i0 k s r mk Hi Hc Hm) as [[e ->] | (s' & -> & Hi' & H1 & H2 & H3)].
+  intros x i0 m k s r mk Q E Hi Hc Hm HE HQ. unfold safe.
+  destruct (pay_spec x i0 m k s r mk Hi Hc Hm) as [[e ->] | (s' & -> & Hi' & H1 & H2 & H3)].
   - exact HE.
   - apply HQ; assumption.
 Qed.
@@ -188,24 +190,24 @@ Lemma safe_upd_append : forall x r s (Q : unit -> estate -> Prop) E,
   xcontract x = true -> Q tt (with_roots s (eroots s ++ [r])) -> safe (upd_append x r) s Q E.
 Proof. intros x r s Q E Hx H. unfold safe, upd_append, with_updater. rewrite Hx. exact H. Qed.
 
-Lemma inv_with_roots : forall x i0 k s r, inv x i0 k s -> inv x i0 k (with_roots s r).
+Lemma inv_with_roots : forall x i0 m k s r, inv x i0 m k s -> inv x i0 m k (with_roots s r).
 Proof. intros. eapply inv_frame; try eassumption; reflexivity. Qed.
-Lemma inv_with_write : forall x i0 k s r, inv x i0 k s -> inv x i0 k (with_write s r).
+Lemma inv_with_write : forall x i0 m k s r, inv x i0 m k s -> inv x i0 m k (with_write s r).
 Proof. intros. eapply inv_frame; try eassumption; reflexivity. Qed.
-Lemma inv_with_temp : forall x i0 k s t, inv x i0 k s -> inv x i0 k (with_temp s t).
+Lemma inv_with_temp : forall x i0 m k s t, inv x i0 m k s -> inv x i0 m k (with_temp s t).
 Proof. intros. eapply inv_frame; try eassumption; reflexivity. Qed.
 
 (** * instructions *)
 (* the post-conditions of one instruction: the invariant moves on; a failure leaves the
    sector list and the pending temporary sectors as they were *)
-Definition iQ (x : ctx) (i0 : N) (k : nat) : N -> estate -> Prop := fun _ s' => inv x i0 k s' /\ rinv k s'.
-Definition iE (x : ctx) (i0 : N) (k : nat) (s : estate) : estate -> Prop :=
-  fun s' => inv x i0 k s' /\ eroots s' = eroots s /\ etemps s' = etemps s.
+Definition iQ (x : ctx) (i0 m : N) (k : nat) : N -> estate -> Prop := fun _ s' => inv x i0 m k s' /\ rinv k s'.
+Definition iE (x : ctx) (i0 m : N) (k : nat) (s : estate) : estate -> Prop :=
+  fun s' => inv x i0 m k s' /\ eroots s' = eroots s /\ etemps s' = etemps s.
 
-Lemma iE_self : forall x i0 k s, inv x i0 (S k) s -> iE x i0 k s s.
+Lemma iE_self : forall x i0 m k s, inv x i0 m (S k) s -> iE x i0 m k s s.
 Proof. intros. split; [apply inv_weaken; assumption|auto]. Qed.
 
-Lemma iE_after_pay : forall x i0 k s s', inv x i0 k s' -> eroots s' = eroots s -> etemps s' = etemps s -> iE x i0 k s s'.
+Lemma iE_after_pay : forall x i0 m k s s', inv x i0 m k s' -> eroots s' = eroots s -> etemps s' = etemps s -> iE x i0 m k s s'.
 Proof. intros. split; auto. Qed.
 
 Lemma nroots_app : forall l r, nroots (l ++ [r]) = nroots l + 1.
